@@ -45,6 +45,7 @@ type PacketConn struct {
 	closed  bool
 	waiting int
 	onWrite func(i int, p Packet)
+	rerrs   []error
 }
 
 // NewPacketConn returns a stand-alone datagram endpoint (not attached to a PacketNet).
@@ -81,6 +82,15 @@ func (p *PacketConn) Inject(b []byte, from net.Addr) int {
 	return p.nRead + len(p.in)
 }
 
+// InjectReadError makes one pending or future ReadFrom / Read call fail with err (FIFO; injected
+// errors are returned before queued datagrams). Event pc.readFrom.return(err).
+func (p *PacketConn) InjectReadError(err error) {
+	p.mu.Lock()
+	p.rerrs = append(p.rerrs, err)
+	p.cond.Broadcast()
+	p.mu.Unlock()
+}
+
 // ReadFrom implements net.PacketConn; a datagram longer than b is truncated (as UDP does).
 func (p *PacketConn) ReadFrom(b []byte) (int, net.Addr, error) {
 	p.point("readFrom.enter")
@@ -98,6 +108,11 @@ func (p *PacketConn) readFrom(b []byte) (int, net.Addr, error, string) {
 		}
 		if !p.rdl.IsZero() && !p.rdl.After(time.Now()) {
 			return 0, nil, timeoutErr("read"), "timeout"
+		}
+		if len(p.rerrs) > 0 {
+			err := p.rerrs[0]
+			p.rerrs = p.rerrs[1:]
+			return 0, nil, err, "err"
 		}
 		if len(p.in) > 0 {
 			k := p.in[0]
